@@ -92,6 +92,10 @@ class Ctx:
         self.wcs = pool.wcs_simple(rot_deg=20.0, cdelt=2.0 / 3600, crval=(40.0, 20.0), crpix=(50.0, 60.0))
         self.img_f, self.img_i = pool.images()
         self.datamask = (self.img_i % 3 == 0)
+        # an image with +-inf pixels (also under pixels of weight zero inside a mask's box)
+        self.img_inf = self.img_f.copy()
+        self.img_inf[self.img_i % 3 == 0] = np.inf
+        self.img_inf[self.img_i % 3 == 1] = -np.inf
         yy, xx = np.mgrid[40:70:3, 36:62:3]
         self.pix_q = PixCoord(xx.astype(float) + 0.37, yy.astype(float) - 0.21)
         self.pix_s = PixCoord(43.0, 55.0)
@@ -154,7 +158,7 @@ class Ctx:
     def fingerprint(self):
         d = {n: FP.fp(r) for n, r in self.reg.items()}
         d['wcs'] = FP.fp(self.wcs)
-        for k in ('img_f', 'img_i', 'datamask', 'pix_q', 'pix_s', 'sky_q', 'sky_s', 'rot_c', 'rot_a', 'list_pix', 'list_sky',
+        for k in ('img_f', 'img_i', 'img_inf', 'datamask', 'pix_q', 'pix_s', 'sky_q', 'sky_s', 'rot_c', 'rot_a', 'list_pix', 'list_sky',
                   'list_mixed', 'list_crtf', 'ds9_text', 'crtf_text', 'fits_table', 'fits_table_nounit', 'masks'):
             d[k] = FP.fp(getattr(self, k))
         for k in ('list_pix', 'list_sky', 'list_mixed', 'list_crtf'):
@@ -251,6 +255,11 @@ OPS = {
     'poolmask_get_values': lambda c: [_try(lambda m=m: FP.fp(m.get_values(c.img_i))) for m in c.masks],
     'poolmask_multiply_cutout': lambda c: [_try(lambda m=m: [FP.fp(m.multiply(c.img_f, fill_value=-1.0)), FP.fp(m.cutout(c.img_i, copy=True))]) for m in c.masks],
     'poolmask_to_image': lambda c: [_try(lambda m=m: [FP.fp(m.to_image(c.img_f.shape)), FP.fp(np.array(m))]) for m in c.masks],
+    'mask_multiply_inf': lambda c: [_try(lambda r=r: [FP.fp(r.to_mask('center').multiply(c.img_inf)), FP.fp(r.to_mask('center').get_values(c.img_inf))])
+                          for r in _maskable(c)],
+    'poolmask_multiply_inf': lambda c: [_try(lambda m=m: [FP.fp(m.multiply(c.img_inf, fill_value=-1.0)), FP.fp(m.cutout(c.img_inf))]) for m in c.masks],
+    # a copy (and a copy of the copy, and a copy of a member taken out of a list) is the caller's: edited in place, coordinates included
+    'copy_then_edit': lambda c: [_try(lambda r=r: _copy_edit(r)) for r in _pix(c) + _sky(c)] + [_try(lambda: _copy_edit(c.list_sky[3]))],
     'area': lambda c: [_try(lambda r=r: FP.fp(r.area)) for r in _pix(c)],
     'bounding_box': lambda c: [_try(lambda r=r: FP.fp(r.bounding_box)) for r in _pix(c)],
     'to_sky': lambda c: [_try(lambda r=r: FP.fp(r.to_sky(c.wcs))) for r in _pix(c)],
@@ -321,6 +330,31 @@ OP_NAMES = list(OPS)
 # operations that touch parsers/serialisers/converters (module-level tables, metadata dicts): all ordered
 # triples of these are executed in the thorough tier
 TRIPLE_OPS = [o for o in OP_NAMES if o.startswith(('ser_', 'write_', 'parse_', 'read_', 'to_sky', 'to_pixel', 'copy', 'as_artist', 'combine_or', 'get_formats', 'chain_', 'scratch_'))]
+
+
+def _copy_edit(r):
+    import astropy.units as u
+    from astropy.coordinates import SkyCoord
+    cp = r.copy().copy()
+    for name in getattr(cp, '_params', ()):
+        v = getattr(cp, name)
+        try:
+            if isinstance(v, SkyCoord):
+                if v.isscalar:
+                    continue
+                v[0] = SkyCoord(1.0 * u.deg, 2.0 * u.deg, frame=v.frame)
+            elif hasattr(v, 'x') and hasattr(v, 'y'):
+                if np.ndim(v.x):
+                    v.x[0] += 1.0
+                    v.y[-1] -= 2.0
+                else:
+                    v.x += 1.0
+            elif isinstance(v, u.Quantity) and np.ndim(v) == 0 and name == 'angle':
+                v[...] = v + 5.0 * v.unit
+        except Exception:      # noqa: BLE001 -- read-only pieces are simply not edited
+            pass
+    cp.meta['text'] = 'edited'
+    return FP.fp(cp)
 
 
 def _R():
